@@ -320,6 +320,46 @@ VIOLATED = bool(bad); DETAIL = "varint-prefixed values that do not round-trip (v
 '''
 
 
+def short_reads():
+    """-> (cases, failures): every fixed-width and length-prefixed type, handed fewer bytes than its encoding has, raises
+    instead of returning a value made of what happened to be there ("decoding the encoding returns the original value" has
+    the other half: what is not an encoding is not decoded)"""
+    import io
+    from aiokafka.protocol import types as T
+    values = [("Int8", T.Int8, -5), ("Int16", T.Int16, -300), ("Int32", T.Int32, -70000), ("UInt32", T.UInt32, 4000000000),
+              ("Int64", T.Int64, -2 ** 40), ("Float64", T.Float64, 1.5), ("Boolean", T.Boolean, True),
+              ("String", T.String("utf-8"), "abc"), ("Bytes", T.Bytes, b"abcd"), ("Array(Int32)", T.Array(T.Int32), [1, 2]),
+              ("CompactString", T.CompactString("utf-8"), "abc"), ("CompactBytes", T.CompactBytes, b"abcd"),
+              ("CompactArray(Int16)", T.CompactArray(T.Int16), [1, 2])]
+    cases, fails = 0, []
+    for name, ty, val in values:
+        enc = ty.encode(val)
+        for k in range(len(enc)):
+            cases += 1
+            try:
+                got = ty.decode(io.BytesIO(enc[:k]))
+            except Exception:
+                continue
+            fails.append({"type": name, "bytes_given": k, "of": len(enc), "decoded": repr(got)[:60]})
+    return cases, fails
+
+
+def enum_short_reads():
+    cases, fails = short_reads()
+    emit({"name": "short-reads-raise", "exhaustive": True, "cases": cases, "distinct_nontrivial": cases,
+          "bound": "one value of each of the 13 primitive / length-prefixed wire types, every proper prefix of its encoding",
+          "failures": fails[:10], "failures_total": len(fails), "replay": {"script": SHORT_SCRIPT}})
+
+
+SHORT_SCRIPT = '''
+import sys
+sys.path.insert(0, "/verif")
+from bounded import C11
+n, fails = C11.short_reads()
+VIOLATED = bool(fails); DETAIL = "%d of %d truncated encodings were decoded to a value instead of refused; first: %r" % (len(fails), n, fails[:3])
+'''
+
+
 def main():
     ap = argparse.ArgumentParser()
     ap.add_argument("--tier", default="quick")
@@ -332,6 +372,7 @@ def main():
     enum_schema_closure(structs, resps)
     roundtrip(structs, resps, a.tier, a.seed)
     primitive_boundaries(a.tier)
+    enum_short_reads()
 
 
 if __name__ == "__main__":
